@@ -212,9 +212,12 @@ pub fn oracle(f: u32, a: &Args, out: &Args) -> Option<(&'static str, String)> {
             if out[0][0] == 1 {
                 let q = out[0][1];
                 if q > (1 << 60) - 1 { return Some(("C11", format!("quarter stream id {} out of range", q))); }
-                // C03: the payload is exactly the suffix after the header
-                let off = out[0][2] as usize;
-                if a[0][off..] != out[1][..] { return Some(("C03", "datagram payload is not the suffix after the quarter stream id".into())); }
+                // C03: the payload is exactly the suffix after the quarter stream id as encoded on the
+                // wire (whatever varint width the peer chose), computed here independently
+                let want = 1usize << (a[0][0] >> 6);
+                if out[0][2] as usize != want || a[0][want..] != out[1][..] {
+                    return Some(("C03", format!("datagram payload is not the suffix after the {}-byte quarter stream id", want)));
+                }
             }
             None
         }
@@ -345,6 +348,18 @@ pub fn generate(rng: &mut Rng, thorough: bool) -> Vec<Case> {
         cs.push(Case::new(403, vec![b2a(&b)], if q <= (1 << 60) - 1 { "valid" } else { "qid-too-large" }));
         for cut in 0..enc(q).len() {
             cs.push(Case::new(403, vec![b2a(&b[..cut])], "truncated-header"));
+        }
+    }
+    // non-minimal encodings of the quarter stream id (every wider varint form)
+    for q in [0u64, 1, 63, 64, 16383, 16384, (1 << 30) - 1] {
+        for n in [2usize, 4, 8] {
+            if n > enc(q).len() {
+                let tag = match n { 2 => 0x40u8, 4 => 0x80, _ => 0xc0 };
+                let mut b = q.to_be_bytes()[8 - n..].to_vec();
+                b[0] |= tag;
+                b.extend(b"payload");
+                cs.push(Case::new(403, vec![b2a(&b)], "non-minimal-qid"));
+            }
         }
     }
     for q in [(1u64 << 60) - 1, 1 << 60, (1 << 60) + 1, (1 << 60) - 2] {
